@@ -77,7 +77,7 @@ Ltac corej :=
   cbn [trace thr next_ext next_int
        set_status set_authed set_closing set_chans set_genctr set_gclosed set_cmu set_pmu set_pinfl
        set_kstarted set_slock set_hub set_others set_reg set_pres set_bsub set_jobs set_gconn set_gsub
-       set_trace set_thr set_next_ext set_next_int set_panicked set_wclosed set_gst].
+       set_trace set_thr set_next_ext set_next_int set_panicked set_wclosed set_hreg set_shut set_gst].
 
 Lemma alloc_of_thread s t : InvBS s -> thr s t <> None -> allocated s t.
 Proof. intros I H. exact (b_tids _ _ _ _ _ _ _ _ I t H). Qed.
@@ -353,18 +353,22 @@ Proof.
       corej; reflexivity.
 Qed.
 
-(* a new thread at a fresh tid, no event *)
-Lemma J_spawn s s' tn x :
-  JInv s -> InvBS s -> ~ allocated s tn -> thr s tn = None ->
-  trace s' = trace s -> thr s' = upd (thr s) tn (Some x) ->
-  (forall t0, allocated s' t0 <-> allocated s t0 \/ t0 = tn) ->
-  match x with TAtt a => a_pc a = PReserve | _ => True end ->
+(* no event; threads are unchanged except possibly new ones at unallocated tids *)
+Definition fresh_ok (o : option thread) : Prop :=
+  match o with Some (TAtt a) => a_pc a = PReserve | _ => True end.
+Lemma J_frame s s' :
+  JInv s ->
+  trace s' = trace s ->
+  (forall t0, allocated s t0 -> allocated s' t0) ->
+  (forall t0, thr s' t0 = thr s t0 \/ (~ allocated s t0 /\ fresh_ok (thr s' t0))) ->
   JInv s'.
 Proof.
-  intros [JF JT] I NA FR TR TH AL NX. constructor.
-  - intros t0 NA0. rewrite TR. apply JF. intros A. apply NA0. apply AL. auto.
-  - intros t0. rewrite TR, TH. unfold upd. destruct (N.eqb_spec t0 tn); [subst t0|apply JT].
-    rewrite (JF tn NA). destruct x; cbn; auto. rewrite NX. reflexivity.
+  intros [JF JT] TR AL TH. constructor.
+  - intros t0 NA0. rewrite TR. apply JF. intros A. apply NA0. auto.
+  - intros t0. rewrite TR. destruct (TH t0) as [E|[NA F]]; [rewrite E; apply JT|].
+    rewrite (JF t0 NA). destruct (thr s' t0) as [[a| | | | |]|]; cbn in *; auto.
+    + rewrite F. reflexivity.
+    + left. reflexivity.
 Qed.
 
 Lemma alloc_ext_iff s s' :
@@ -399,12 +403,18 @@ Proof.
   intros JI I H. unfold spawn in H.
   assert (FR : thr s (2 * next_ext s) = None) by (eapply fresh_ext_b; eauto).
   assert (NA : ~ allocated s (2 * next_ext s)) by (intros [(k & E & L)|(k & E & L)]; lia).
+  assert (FRI : thr s (2 * next_int s + 1) = None) by (eapply fresh_int_b; eauto).
+  assert (NAI : ~ allocated s (2 * next_int s + 1)) by (intros [(k & E & L)|(k & E & L)]; lia).
   destruct o;
     repeat match type of H with
     | (if ?c then _ else _) = _ => destruct c
     end; try discriminate; inv H;
-    (eapply J_spawn with (tn := 2 * next_ext s); [exact JI|exact I|exact NA|exact FR
-       |corej; reflexivity|corej; reflexivity|apply alloc_ext_iff; corej; reflexivity|cbn; auto]).
+    repeat (match goal with |- context [if ?x then _ else _] => destruct x end);
+    (eapply J_frame; [exact JI|corej; reflexivity
+      |unfold allocated; corej; intros t0 [(k & E & L)|(k & E & L)]; [left|right]; exists k; split; auto; lia
+      |corej; intros t0; unfold upd;
+       repeat (match goal with |- context [N.eqb ?a ?b] => destruct (N.eqb_spec a b); subst end);
+       auto; right; split; auto; cbn; auto]).
 Qed.
 
 Lemma astep_J s l s' : JInv s -> InvBS s -> astep s l = Some s' -> JInv s'.
@@ -419,8 +429,10 @@ Proof.
     assert (NA : ~ allocated s (2 * next_int s + 1)) by (intros [(k & E & L)|(k & E & L)]; lia).
     destruct (subscribers s c); inv H.
     + destruct JI as [JF JT]. constructor; auto.
-    + eapply J_spawn with (tn := 2 * next_int s + 1); [exact JI|exact I|exact NA|exact FR
-        |corej; reflexivity|corej; reflexivity|apply alloc_int_iff; corej; reflexivity|cbn; auto].
+    + eapply J_frame; [exact JI|corej; reflexivity
+        |unfold allocated; corej; intros t0 [(k & E & L)|(k & E & L)]; [left|right]; exists k; split; auto; lia
+        |corej; intros t0; unfold upd; destruct (N.eqb_spec t0 (2 * next_int s + 1)); subst; auto;
+         right; split; auto; cbn; auto].
   - unfold other_add in H. destruct (slock s c); [discriminate|].
     destruct JI as [JF JT].
     destruct (subscribers s c); [|destruct b]; inv H; constructor; auto.
@@ -552,7 +564,7 @@ Definition ojl := mkOpts false true.
 
 (* client path: close() between commitSubscription and PublishJoin *)
 Definition leave_join_cli : list label :=
-  [LSpawn OConnect] ++ rep 7 (LStep 0 true) ++
+  [LSpawn OConnect] ++ rep 8 (LStep 0 true) ++
   [LSpawn (OSubCli 0 ojl)] ++ rep 10 (LStep 2 true) ++   (* ... commit, gate released; parked before PublishJoin *)
   [LSpawn OClose] ++ rep 15 (LStep 4 true) ++            (* close: unsubscribe publishes the leave *)
   [LStep 2 true].                                        (* the join lands afterwards *)
@@ -573,7 +585,7 @@ Qed.
 
 (* server-side path: the writer is closed before Client.Subscribe enqueues its push *)
 Definition leave_no_join_srv : list label :=
-  [LSpawn OConnect] ++ rep 7 (LStep 0 true) ++
+  [LSpawn OConnect] ++ rep 8 (LStep 0 true) ++
   [LSpawn (OSubSrv 0 ojl)] ++ rep 7 (LStep 2 true) ++    (* ... commit, gate released; before the push *)
   [LSpawn OClose] ++ rep 15 (LStep 4 true) ++            (* close: writer closed, leave published *)
   [LStep 2 true].                                        (* push not enqueued: returns without join *)
